@@ -754,7 +754,9 @@ class SrcToJSON(SectionUnit):
 
     def globals_init(self, S):
         from pyvc.values import Obj
-        return {(SRCM[:-1], "registry"): Obj(lookup_qualname("pel.peltool.registry.Registry"), dict(pels=self._pels))}
+        import copy
+        # a private copy per path: a write by the code under test must not leak into the next path's registry
+        return {(SRCM[:-1], "registry"): Obj(lookup_qualname("pel.peltool.registry.Registry"), dict(pels=copy.deepcopy(self._pels)))}
 
     def pre(self, S, inp):
         s = inp['stream']
@@ -768,15 +770,20 @@ class SrcToJSON(SectionUnit):
     def call_native(self, inp):
         from pel.peltool import src as srcmod, registry as regmod
         saved = srcmod.registry
+        import copy
         r = object.__new__(regmod.Registry)
-        r.pels = self._pels
+        r.pels = copy.deepcopy(self._pels)
         srcmod.registry = r
+        self._reg_after = r.pels
         try:
             return SectionUnit.call_native(self, inp)
         finally:
             srcmod.registry = saved
 
     def check(self, P, inp, old, out):
+        if not P.symbolic:
+            # (symbolically this is the frame obligation: the registry's entries are shared locations)
+            P.prove(getattr(self, '_reg_after', self._pels) == self._pels, "the message registry is not modified by decoding an SRC")
         if not out.returned:
             if P.symbolic:
                 # the only failures on a well-formed fixed part: a truncated/malformed callout subsection (range check)
